@@ -98,7 +98,13 @@ fn remove_percent_suffix(arg: &str) -> &str {
 }
 
 fn ensure_display_width_1(what: &str, arg: String) -> String {
-    match arg.grapheme_indices(true).count() {
+    // A single grapheme is not enough: it must also occupy exactly one column (not a
+    // double-width or a zero-width character), `wrap_line` reserves one column for it.
+    let width = match arg.grapheme_indices(true).count() {
+        INLINE_SYMBOL_WIDTH_1 => arg.width(),
+        graphemes => graphemes,
+    };
+    match width {
         INLINE_SYMBOL_WIDTH_1 => arg,
         width => fatal(format!(
             "Invalid value for {what}, display width of \"{arg}\" must be {INLINE_SYMBOL_WIDTH_1} but is {width}",
